@@ -847,3 +847,450 @@ def validation_cases(ctx, r, spec):
             model_protos = [g.summary(p, nm) for nm, p in api0.all_protos.items()] if mo.get("outcome") == "unchanged" else mo.get("protos")
             if mo.get("outcome") == "rejected" or model_protos != real_protos:
                 ctx.disagree("T2:c16.third_pass", f"model third pass ({mo.get('outcome')}) != API.build for settings '{name}'", payload)
+
+# --------------------------------------------------------------------------------------------------
+# T3: the emitted selective library vs the full library, the oracle's reachability and the model
+
+
+def rpc_names(m, internal=False):
+    base = snake(m["name"])
+    names = [base] + ([base + "_unary"] if m.get("opservice") else [])
+    return ["_" + n for n in names] if internal else names
+
+
+def target_services(spec):
+    return [(f, s) for f in spec["files"] if f["package"] == PKG for s in f["services"]]
+
+
+def call_plan(r, spec, codec):
+    """one scripted call per RPC (same bytes for every library built from this API)"""
+    plan = {}
+    for f, s in target_services(spec):
+        for m in s["methods"]:
+            fq = f"{PKG}.{s['name']}.{m['name']}"
+            if m.get("opservice") or m.get("polling") or m["output"] == f".{PKG}.Operation":
+                continue                      # extended operations: surface only (REST polling is C08's business)
+            path = f"/{PKG}.{s['name']}/{m['name']}"
+            inp = m["input"].lstrip(".")
+            req = rpc.rand_msg(r, codec, inp, p_set=0.7)
+            call = {"fqn": fq, "input": inp, "request_b64": codec.encode_b64(inp, req), "consume": "value", "path": path}
+            out = m["output"].lstrip(".")
+            if m.get("lro"):
+                d_resp = rpc.rand_msg(r, codec, codec_resolve(codec, m["lro"][0]), p_set=0.7)
+                d_meta = rpc.rand_msg(r, codec, codec_resolve(codec, m["lro"][1]), p_set=0.7)
+                op = {"name": "operations/op1", "done": True,
+                      "response": dict({"@type": "type.googleapis.com/" + codec_resolve(codec, m["lro"][0])}, **d_resp),
+                      "metadata": dict({"@type": "type.googleapis.com/" + codec_resolve(codec, m["lro"][1])}, **d_meta)}
+                call["replies"] = [codec.encode_b64("google.longrunning.Operation", op)]
+                call["consume"] = "lro"
+                call["result_type"] = codec_resolve(codec, m["lro"][0])
+            elif m.get("ss"):
+                call["replies"] = [codec.encode_b64(out, rpc.rand_msg(r, codec, out, p_set=0.7)) for _ in range(2)]
+                call["consume"] = "stream"
+            elif m["name"].startswith("List"):
+                page = rpc.rand_msg(r, codec, out, p_set=0.9, force=("items",))
+                page.pop("next_page_token", None)
+                call["replies"] = [codec.encode_b64(out, page)]
+                call["consume"] = "pager"
+            else:
+                call["replies"] = [codec.encode_b64(out, rpc.rand_msg(r, codec, out, p_set=0.7))]
+            plan[fq] = call
+    return plan
+
+
+def codec_resolve(codec, name):
+    name = name.lstrip(".")
+    try:
+        codec.pool.FindMessageTypeByName(name)
+        return name
+    except KeyError:
+        return f"{PKG}.{name}"
+
+
+def run_library(spec, files, api, doc, plan, call_names):
+    """generate (with `doc` as service yaml, or the full library when None), import, observe, call.
+    call_names: {fqn: python method name} for the calls to make."""
+    import gapic.utils as gu
+    if doc is None:
+        req = make_request(spec, files, None, transport="grpc+rest" if spec.get("rest") else "grpc")
+        res, err = genrun.try_generate(req)
+    else:
+        with Yaml(doc) as yp:
+            req = make_request(spec, files, yp, transport="grpc+rest" if spec.get("rest") else "grpc")
+            res, err = genrun.try_generate(req)
+    if err:
+        return {"gen_error": err}
+    root = genrun.materialise(res)
+    try:
+        pkg = "acme.lib_v1"
+        ops = [{"op": "import_all", "package": pkg}, {"op": "proto_classes", "module": pkg + ".types"}]
+        svc_index = {}
+        for f, s in target_services(spec):
+            svc_index[s["name"]] = len(ops)
+            ops.append({"op": "client_surface", "module": f"{pkg}.services.{snake(s['name'])}"})
+        sess_index = {}
+        for sk, svc in api.services.items():
+            calls = []
+            for m in svc.methods.values():
+                fq = f"{sk}.{m.name}"
+                if fq in call_names and fq in plan:
+                    c = plan[fq]
+                    calls.append({"method": call_names[fq], "mode": "request-instance", "py_request": rpc.py_type(m.input),
+                                  "request_b64": c["request_b64"], "consume": c["consume"], "fqn": fq,
+                                  "call_kwargs": {"timeout": 9.0},
+                                  "script": {c["path"]: [{"replies": c["replies"]}]}})
+            if calls:
+                loc = rpc.py_locations(api, svc)
+                sess_index[sk] = (len(ops), calls)
+                ops.append({"op": "grpc_session", "client": loc["client"], "transport": loc["grpc"], "async": False, "calls": calls})
+        out = libhost.run(root, ops, timeout=300)
+        return {"import": out[0], "types": out[1], "surface": {k: out[i] for k, i in svc_index.items()},
+                "sessions": {k: (out[i], calls) for k, (i, calls) in sess_index.items()},
+                "files": sorted(f.name for f in res.file)}
+    finally:
+        genrun.cleanup(root)
+
+
+def canon_call(res, codec, call):
+    """what a caller and the server can observe of one call, decoded under the INPUT descriptors"""
+    out = {"raised": res.get("raised")}
+
+    def norm(x):
+        if isinstance(x, dict):
+            if x.get("kind") == "message" and "b64" in x:
+                return {"type": x["type"], "value": codec.decode(x["type"], x["b64"]), "plus": x.get("plus")}
+            return {k: norm(v) for k, v in x.items() if k not in ("py",)}
+        if isinstance(x, list):
+            return [norm(v) for v in x]
+        return x
+    if "ok" in res:
+        out["ok"] = norm(res["ok"])
+    out["server"] = [{"path": rec["path"], "requests": [codec.decode(call["input"], b) for b in rec["requests"]],
+                      "metadata": sorted([k, v] for k, v in rec["metadata"] if k.startswith("x-goog-request"))}
+                     for rec in res.get("server", [])]
+    out["stubs"] = [[s[0], s[1]] for s in res.get("stubs", [])]
+    return out
+
+
+def emitted_types(lib, d):
+    """proto full names of the classes the emitted types package defines (target package)"""
+    cls = lib["types"].get("classes", [])
+    return {c["full"] for c in cls if c["kind"] != "error"}, [c for c in cls if c["kind"] == "error" or not c.get("usable")]
+
+
+def t3_api(ctx, r, spec, nvar, label, variants=None):
+    files = build_files(spec)
+    api0, _ = genrun.build_api(make_request(spec, files))
+    d = Descs(files, PKG)
+    codec = rpc.Codec(files)
+    g = Graph(api0)
+    gj = g.json()
+    plan = call_plan(r, spec, codec)
+    all_fq = all_methods(spec, PKG)
+    meth_by_fq = {f"{PKG}.{s['name']}.{m['name']}": m for f, s in target_services(spec) for m in s["methods"]}
+    full = run_library(spec, files, api0, None, plan, {fq: snake(meth_by_fq[fq]["name"]) for fq in all_fq})
+    base_payload = {"kind": "t3", "spec": spec}
+    if "gen_error" in full or full["import"].get("errors") or "classes" not in full["types"]:
+        ctx.assume("the FULL library of a generated API generates and imports (C01's business); API skipped: %s" % str(full.get("gen_error") or full["import"].get("errors"))[:160])
+        ctx.unsupported += 1
+        return
+    full_types, _ = emitted_types(full, d)
+    full_calls = {}
+    for sk, (sess, calls) in full["sessions"].items():
+        for c, res_ in zip(calls, sess.get("calls", [])):
+            full_calls[c["fqn"]] = canon_call(res_, codec, plan[c["fqn"]])
+    if variants is None:
+        variants = [(spec["listed"], False), (spec["listed"], True)] + subsets(r, spec, max(0, nvar - 2))
+    mres = ctx.driver.ask([{"op": "c16.third_pass", "api": gj, "settings": settings_json(service_yaml(spec, listed, internal)),
+                            "proto_package": api0.naming.proto_package, "package": PKG} for listed, internal in variants])
+    for (listed, internal), mo in zip(variants, mres):
+        payload = dict(base_payload, listed=listed, internal=internal)
+        doc = service_yaml(spec, listed, internal)
+        kind, api_sel = build_selective(spec, files, doc)
+        req_types, req_methods, req_services = d.reach(listed)
+        required = {t for t in req_types if d.in_target(t)}
+        hz = hazards(d, req_types) if not internal else []
+        hkey = "nested-kept-parent-pruned" if hz else None
+        feats = features(spec, d, listed, req_types)
+        ctx.case({"t3": True, "listed": listed, "internal": internal, "features": feats},
+                 distinct_key=["t3", json.dumps(listed), internal, json.dumps(spec, sort_keys=True)])
+        ctx.count("t3_mode", "internal" if internal else "omit")
+        for ft in feats:
+            ctx.count("t3_features", ft)
+        if kind != "built":
+            ctx.fail("build-failed", f"API.build: {kind} {str(api_sel)[:200]}", payload)
+            continue
+        names = {}
+        for sk, svc in api_sel.services.items():
+            for m in svc.methods.values():
+                names[f"{sk}.{m.name}"] = snake(m.client_method_name) if not m.client_method_name.startswith("_") else "_" + snake(m.client_method_name[1:])
+        lib = run_library(spec, files, api_sel, doc, plan, names)
+        ctx.traces += 1
+        if "gen_error" in lib:
+            ctx.fail(hkey or ("generation-crash:" + lib["gen_error"][0]), f"generator raised {lib['gen_error']}", payload)
+            continue
+        if lib["import"].get("errors") or "child_error" in lib["import"]:
+            ctx.fail(hkey or "import-error", f"the selective library does not import: {str(lib['import'].get('errors') or lib['import'])[:300]}", payload)
+            continue
+        # ---- services and RPC surface
+        for f, s in target_services(spec):
+            sk = f"{PKG}.{s['name']}"
+            surf = lib["surface"][s["name"]]
+            want_present = internal or sk in req_services
+            present = "classes" in surf
+            if present != want_present:
+                ctx.fail("service-set", f"service {s['name']}: module present={present}, expected {want_present}", payload)
+                continue
+            if not present:
+                continue
+            unlisted = [m for m in s["methods"] if f"{sk}.{m['name']}" not in listed]
+            prefix = "Base" if (internal and unlisted) else ""
+            want_classes = {prefix + s["name"] + "Client", prefix + s["name"] + "AsyncClient"}
+            if set(surf["classes"]) != want_classes:
+                ctx.fail("internal-names" if internal else "client-classes", f"{s['name']}: classes {sorted(surf['classes'])}, expected {sorted(want_classes)}", payload)
+                continue
+            every = set()
+            for m in s["methods"]:
+                every |= set(rpc_names(m)) | set(rpc_names(m, internal=True))
+            fsurf = full["surface"][s["name"]].get("classes", {})
+            for cn, members in surf["classes"].items():
+                suffix = "AsyncClient" if cn.endswith("AsyncClient") else "Client"
+                fmembers = set(fsurf.get(s["name"] + suffix, []))      # what the FULL library offers for each RPC
+                want = set()
+                for m in s["methods"]:
+                    fq = f"{sk}.{m['name']}"
+                    offered = [n for n in rpc_names(m) if n in fmembers]
+                    if fq in listed or (not internal and fq in req_methods):
+                        want |= set(offered)
+                    elif internal:
+                        want |= {"_" + n for n in offered}
+                got = set(members) & every
+                if got != want:
+                    ctx.fail("internal-names" if internal else "rpc-set",
+                             f"{cn}: RPC methods {sorted(got)}, expected {sorted(want)}", payload)
+            # model correspondence: the model's kept methods and names
+            if mo.get("outcome") == "built":
+                msvc = [x for p in mo["protos"] for x in p["services"] if x["name"] == s["name"]]
+                mnames = set()
+                for x in msvc[:1]:
+                    for mm in x["methods"]:
+                        cm = mm["client_method_name"]
+                        sn = "_" + snake(cm[1:]) if cm.startswith("_") else snake(cm)
+                        src = next(q for q in s["methods"] if q["name"] == mm["name"])
+                        mnames |= {sn} | ({sn + "_unary"} if src.get("opservice") else set())
+                    if {x["client_name"], x["async_client_name"]} != set(surf["classes"]):
+                        ctx.disagree("T3:c16.client_names", f"model {x['client_name']} vs emitted {sorted(surf['classes'])}", payload)
+                for cn, members in surf["classes"].items():
+                    suffix = "AsyncClient" if cn.endswith("AsyncClient") else "Client"
+                    fmembers = set(fsurf.get(s["name"] + suffix, []))
+                    mn = {n for n in mnames if n.lstrip("_") in fmembers or n in fmembers}
+                    if set(members) & every != mn:
+                        ctx.disagree("T3:c16.surface", f"{cn}: model {sorted(mn)} vs emitted {sorted(set(members) & every)}", payload)
+        # ---- types
+        got_types, bad = emitted_types(lib, d)
+        if "classes" not in lib["types"]:
+            ctx.fail(hkey or "types-import", f"types package: {lib['types']}", payload)
+            continue
+        if bad:
+            ctx.fail(hkey or "type-unusable", f"emitted classes that cannot be instantiated: {[b.get('full') or b.get('name') for b in bad][:4]} ({bad[0].get('error')})", payload)
+        want_types = full_types if internal else required
+        if want_types - got_types:
+            ctx.fail(hkey or ("internal-omits" if internal else "type-missing"), f"classes missing from the library: {sorted(want_types - got_types)[:5]}", payload)
+        allowed = want_types if not hz else {t for t in d.with_enclosing(req_types) if d.in_target(t)}
+        if got_types - allowed:
+            ctx.fail("type-extra", f"classes the listed RPCs cannot reach: {sorted(got_types - allowed)[:5]}", payload)
+        if mo.get("outcome") == "built" and not hz:
+            mtypes = {g.names[i] for p in mo["protos"] if p["name"].startswith("acme/lib/") for i in p["messages"] + p["enums"]}
+            if mtypes != got_types:
+                ctx.disagree("T3:c16.types", f"model keeps {sorted(mtypes ^ got_types)[:5]} differently from the emitted types package", payload)
+        if hz:
+            ctx.count("hazard", "t3:nested-type-without-enclosing-message")
+            if not bad and not (want_types - got_types):
+                pass
+            continue
+        # ---- wire behaviour of the kept RPCs vs the full library
+        for sk, (sess, calls) in lib["sessions"].items():
+            if "calls" not in sess:
+                ctx.fail("session-failed", f"{sk}: {str(sess)[-300:]}", payload)
+                continue
+            for c, res_ in zip(calls, sess["calls"]):
+                mine = canon_call(res_, codec, plan[c["fqn"]])
+                ref = full_calls.get(c["fqn"])
+                ctx.count("t3_calls", plan[c["fqn"]]["consume"] + (":raised " + str(mine["raised"]) if mine.get("raised") else ":ok"))
+                ctx.traces += 1
+                if ref is None:
+                    continue
+                if ref.get("raised") and ref.get("raised") == mine.get("raised"):
+                    continue        # the full library fails the same way: not this property's business
+                if mine != ref:
+                    diff = [k for k in ("raised", "ok", "server", "stubs") if mine.get(k) != ref.get(k)]
+                    ctx.fail("wire-differs", f"{c['fqn']} ({c['method']}): {diff} differ from the full library; "
+                             f"selective {str(mine.get('raised') or mine.get(diff[0]))[:160]} / full {str(ref.get(diff[0]))[:160]}", dict(payload, call=c["fqn"]))
+
+# --------------------------------------------------------------------------------------------------
+# single validation probe (also the replay entry for kind="validate")
+
+
+def validate_one(ctx, spec, doc, want_reject, key, name):
+    files = build_files(spec)
+    api0, _ = genrun.build_api(make_request(spec, files))
+    g = Graph(api0)
+    payload = {"kind": "validate", "spec": spec, "doc": doc, "name": name, "want_reject": want_reject, "key": key}
+    kind, built = build_selective(spec, files, doc)
+    mo = ctx.driver.ask([{"op": "c16.third_pass", "api": g.json(), "settings": settings_json(doc),
+                          "proto_package": api0.naming.proto_package, "package": spec["target_package"]}])[0]
+    ctx.case({"validation": name, "outcome": kind}, distinct_key=["validate1", name, json.dumps(doc, sort_keys=True), json.dumps(spec, sort_keys=True)])
+    ctx.count("validation", f"{name}:{kind}")
+    ctx.traces += 1
+    if kind == "crash":
+        ctx.fail("build-crash:" + built[0], f"API.build raised {built[0]}: {built[1]}", payload)
+        return
+    if want_reject and kind != "rejected":
+        ctx.fail(key, f"settings '{name}' list a method of another version / an unknown method and were accepted; "
+                 f"the library then holds services {sorted(built.services)}", payload)
+    if kind == "rejected":
+        if mo.get("outcome") != "rejected" or mo.get("errors") != built:
+            ctx.disagree("T2:c16.third_pass", f"model {mo.get('outcome')} vs real rejected {built}", payload)
+    else:
+        real_protos = [g.summary(p, nm) for nm, p in built.all_protos.items()]
+        model_protos = [g.summary(p, nm) for nm, p in api0.all_protos.items()] if mo.get("outcome") == "unchanged" else mo.get("protos")
+        if mo.get("outcome") == "rejected" or model_protos != real_protos:
+            ctx.disagree("T2:c16.third_pass", f"model third pass ({mo.get('outcome')}) != API.build for settings '{name}'", payload)
+
+
+def prefix_probe_spec(r=None):
+    """two versions of one API in a request; the v1 file imports a v1beta1 type (so protoc sends both)"""
+    beta = {"name": "acme/lib/v1beta1/lib.proto", "package": "acme.lib.v1beta1", "deps": [], "resdefs": [], "enums": [],
+            "messages": [_msg("Thing", [{"name": "name", "t": "string"}]), _msg("GetThingRequest", [{"name": "name", "t": "string"}])],
+            "services": [{"name": "Library", "methods": [{"name": "GetThing", "input": ".acme.lib.v1beta1.GetThingRequest", "output": ".acme.lib.v1beta1.Thing"}]}]}
+    v1 = {"name": "acme/lib/v1/lib.proto", "package": PKG, "deps": ["acme/lib/v1beta1/lib.proto"], "resdefs": [], "enums": [],
+          "messages": [_msg("Book", [{"name": "name", "t": "string"}, {"name": "legacy", "msg": ".acme.lib.v1beta1.Thing"}]),
+                       _msg("GetBookRequest", [{"name": "name", "t": "string"}])],
+          "services": [{"name": "Library", "methods": [{"name": "GetBook", "input": f".{PKG}.GetBookRequest", "output": f".{PKG}.Book"}]}]}
+    return {"files": [beta, v1], "target_package": PKG, "version": PKG, "listed": ["acme.lib.v1beta1.Library.GetThing"], "internal": False}
+
+# --------------------------------------------------------------------------------------------------
+
+
+def run_payload(ctx, payload, r=None):
+    r = r or ctx.rng("replay")
+    kind = payload.get("kind", "t3")
+    spec = payload["spec"]
+    if kind == "validate":
+        validate_one(ctx, spec, payload["doc"], payload.get("want_reject", True), payload.get("key", "bad-method-accepted"), payload.get("name", "replay"))
+    elif kind == "t2":
+        t2_api(ctx, r, spec, 0, "replay", variants=[(payload["listed"], payload["internal"])])
+    else:
+        t2_api(ctx, r, spec, 0, "replay", variants=[(payload["listed"], payload["internal"])])
+        t3_api(ctx, r, spec, 0, "replay", variants=[(payload["listed"], payload["internal"])])
+
+
+def all_subsets(meths):
+    out = []
+    for mask in range(1, 1 << len(meths)):
+        out.append([m for i, m in enumerate(meths) if mask >> i & 1])
+    return out
+
+
+def run(ctx):
+    ctx.rule = ("APIs of the 'selective' profile (2-4 proto files of the target package + dependency packages; shared, nested, "
+                "recursive and map types; message- and file-level resources with type/child_type references; unary, paged, "
+                "LRO, streaming and extended-operation RPCs; services that become empty; files that drop out) x subsets of "
+                "RPCs (random, singletons, all-but-one, all; every subset for small APIs in the thorough tier) x "
+                "generate_omitted_as_internal in {false,true}; plus settings probes (unknown method/service, dependency method, "
+                "other version, duplicate version, empty list). distinct by (API, subset, mode) / (API, settings); every "
+                "generated case is non-trivial (selective settings present)")
+    ctx.assume("resources are declared on top-level messages or as file-level resource_definition (the generator's own notion of a resource)")
+    ctx.assume("the operation service of an extended operation lives in the same file and its polling method does not itself start an "
+               "extended operation (API.build raises otherwise: such schemas do not exist)")
+    ctx.assume("RPC names are ASCII identifiers that are neither python keywords nor start with an underscore (C12's business)")
+    # ---- corpus first
+    if os.path.isdir(CORPUS):
+        for fn in sorted(os.listdir(CORPUS)):
+            if fn.endswith(".json"):
+                with open(os.path.join(CORPUS, fn)) as fh:
+                    blob = json.load(fh)
+                run_payload(ctx, blob.get("payload", blob), ctx.rng("corpus", fn))
+                ctx.count("corpus", fn)
+    # ---- T2 at scale
+    r = ctx.rng("t2")
+    for a in range(ctx.n(36, 640)):
+        spec = gen_spec(r)
+        t2_api(ctx, r, spec, 2, f"t2-{a}")
+        if a % 4 == 0:
+            validation_cases(ctx, r, spec)
+    # ---- every subset of small APIs
+    r = ctx.rng("exhaustive")
+    done = 0
+    tries = 0
+    while done < ctx.n(1, 14) and tries < 400:
+        tries += 1
+        spec = gen_spec(r)
+        meths = all_methods(spec, PKG)
+        if len(meths) > 5:
+            continue
+        done += 1
+        subs = all_subsets(meths)
+        t2_api(ctx, r, spec, 0, f"ex-{done}", variants=[(s, i) for s in subs for i in (False, True)])
+        ctx.count("exhaustive_apis", len(meths))
+    ctx.exhaustive = {"all_subsets_of_small_apis": done}
+    # ---- T3
+    r = ctx.rng("t3")
+    for a in range(ctx.n(5, 62)):
+        spec = gen_spec(r, t3=True)
+        t3_api(ctx, r, spec, ctx.n(3, 4), f"t3-{a}")
+    r = ctx.rng("t3ext")
+    for a in range(ctx.n(1, 7)):
+        spec = gen_spec(r, t3=True, ext=True)
+        spec["rest"] = True
+        meths = all_methods(spec, PKG)
+        starter = [m for m in meths if m.endswith(".InsertThing")]
+        others = [m for m in meths if m not in starter]
+        variants = [(sorted(starter + r.sample(others, min(1, len(others)))), False), (sorted(starter), True),
+                    (sorted(r.sample(others, min(2, len(others)))), False)]
+        t3_api(ctx, r, spec, 0, f"t3ext-{a}", variants=variants)
+
+
+def search(ctx):
+    r = ctx.rng("search")
+    for a in range(30):
+        spec = gen_spec(r)
+        t2_api(ctx, r, spec, 3, f"search-{a}")
+        if a % 3 == 0:
+            validation_cases(ctx, r, spec)
+    for a in range(6):
+        spec = gen_spec(r, t3=True)
+        t3_api(ctx, r, spec, 4, f"search-t3-{a}")
+
+
+def replay(ctx, payload):
+    import leanio
+    ctx.driver = leanio.Driver()
+    run_payload(ctx, payload)
+    for f in ctx.failures:
+        print("  failure:", f["key"], "-", f["what"])
+    for dgr in ctx.disagreements:
+        print("  disagreement:", dgr["correspondence"], "-", dgr["what"])
+    return not ctx.failures
+
+
+CLAIM = dict(
+    text=("Lean 4 proof on an executable model of the allow-list traversal (the code's DFS with its visited guard, unguarded "
+          "method recursion, fuel = #messages+3): the allow-list is EXACTLY the set reachable from the listed methods through "
+          "field types, enums, resource references, nested declarations, LRO response/metadata and extended-operation "
+          "service/polling method/request/operation (soundness for every fuel; completeness = the fuel suffices; closure; "
+          "leastness among closed sets); pruning is closed and minimal and keeps exactly the listed RPCs plus needed polling "
+          "methods; dependency protos are carried over untouched; internal mode omits nothing and renames (`_` prefix, `Base` "
+          "client prefix iff some method is internal); unknown / wrong-version methods are rejected, and nothing else is. "
+          "Counterexample theorems for the two places where the code violates the statement. Tie: T2 the real "
+          "add_to_address_allowlist / prune_messages_for_selective_generation / with_internal_methods / "
+          "enforce_valid_library_settings / API.build on the type graph extracted from the real schema objects (addresses "
+          "numbered by the real Address.__eq__/__hash__); T3 classes, client surfaces and wire behaviour of the imported "
+          "selective library vs the full library and vs a reachability computed on the input descriptors."),
+    technique="Lean 4 theorems (DFS soundness/completeness/leastness by induction on fuel with an unvisited-count measure) + differential T2/T3 + descriptor-level oracle",
+    design="7.16",
+    note=("Well-formedness of the extracted graph (Api.wf, Api.wfAddrs: enum/service addresses carry no fields, every message "
+          "met is in the table, polling methods do not start extended operations, method addresses are unique) is a hypothesis "
+          "of the completeness theorems and is evaluated by the driver on every extracted graph. Extended-operation RPCs are "
+          "checked at the surface level only in T3 (their REST polling belongs to C08)."),
+)
